@@ -14,8 +14,22 @@ use std::time::{Duration, Instant};
 
 pub const VERIF_DIR: &str = "/verif";
 
+/// directory that holds golden/, known-findings.txt, evidence/, replays/: ABYSIM_VERIF_DIR, else
+/// the checkout this binary was built in (<verif>/sim/target*/...), else /verif
 pub fn verif_dir() -> String {
-    std::env::var("ABYSIM_VERIF_DIR").unwrap_or_else(|_| VERIF_DIR.to_string())
+    if let Ok(v) = std::env::var("ABYSIM_VERIF_DIR") {
+        return v;
+    }
+    if let Ok(me) = std::env::current_exe() {
+        let s = me.to_string_lossy().to_string();
+        if let Some(i) = s.find("/sim/target") {
+            let cand = &s[..i];
+            if std::path::Path::new(&format!("{cand}/properties.jsonl")).exists() {
+                return cand.to_string();
+            }
+        }
+    }
+    VERIF_DIR.to_string()
 }
 
 fn tmp_base() -> String {
@@ -545,6 +559,13 @@ fn run_check_inner(cfg: &CheckCfg) -> CheckResult {
                     procs[id].done = true;
                     eof[id] = true;
                 }
+            }
+        }
+        // a flood of violations adds nothing: stop exploring once many were collected
+        if !stopped_early && found.len() >= 150 {
+            stopped_early = true;
+            for p in procs.iter() {
+                p.status.set(2, 1);
             }
         }
         if !stopped_early && t0.elapsed() > cfg.wall_cap {
